@@ -6,7 +6,9 @@ use gm_zuc::eia::EIA;
 use gm_zuc::ZUC;
 use serde_json::{json, Value};
 
-fn run_requests(t: &mut Tracer, sess: &str, key: &[u8], iv: &[u8], reqs: &[usize]) {
+fn run_requests(t: &mut Tracer, sess: &str, key: &[u8], iv: &[u8], reqs: &[usize]) { run_requests_flag(t, sess, key, iv, reqs, false) }
+/// `special`: ask the specification to look for rounds that start with R1 = 0 or R2 = 0 inside each request (it costs a second pass)
+fn run_requests_flag(t: &mut Tracer, sess: &str, key: &[u8], iv: &[u8], reqs: &[usize], special: bool) {
     let (pk, pv) = (crate::gen::realign(key), crate::gen::realign(iv));
     let out = guard_plain(|| ZUC::new(pk.get(), pv.get()));
     t.emit(sess, "zuc.new", json!({"prop": "C08", "key": bytes(key), "iv": bytes(iv), "outcome": out.name(), "detail": out.detail()}));
@@ -14,7 +16,7 @@ fn run_requests(t: &mut Tracer, sess: &str, key: &[u8], iv: &[u8], reqs: &[usize
     for n in reqs {
         let o = guard_plain(|| z.generate_keystream(*n));
         let w = o.ok().cloned().unwrap_or_default();
-        t.emit(sess, "zuc.req", json!({"prop": "C08", "n": n, "out": words16(&w), "outcome": o.name(), "detail": o.detail()}));
+        t.emit(sess, "zuc.req", json!({"prop": "C08", "n": n, "special": if special { 1 } else { 0 }, "out": words16(&w), "outcome": o.name(), "detail": o.detail()}));
     }
 }
 
@@ -141,6 +143,14 @@ pub fn drive_stream(t: &mut Tracer, tier: &str, seed: u64, plan: Option<String>)
                 run_requests(t, &sess(), &key, &iv, &[1, 0, 3, 12]);
             }
         }
+    }
+    // (a3) searched (key, IV) pairs (one-off helper in main.rs) for which some round starts with one of the memory words of F equal to ZERO (R1 = 0 at word 1181;
+    //      R2 = 0 at words 1350, 671, 663; 2^-32 per round): the specification re-classifies the sessions itself (class suffix .r-zero)
+    for (k, v, at) in [("e70bd263a0935f21f220be90fd8a5f6e", "7cf3f0990175b2e6f087463ca560bafe", 1181usize), ("2bb9c5b2e1aad8f813054bcd708cc208", "a563b1c76476c983ae3b8b543b9ffff1", 1350),
+                       ("67d2d3a7837c0f32d7c1009b6412670c", "0d87080ddcf1fe85b74f1c3f96626898", 671), ("b79753b3134cbc0293b5e04c1a3aa8e9", "76cb871d533823f4b29fc4ac2ca5deb3", 663)] {
+        let (key, iv) = (hex::decode(k).unwrap(), hex::decode(v).unwrap());
+        run_requests_flag(t, &sess(), &key, &iv, &[at - 3, 8, 5], true);
+        run_requests_flag(t, &sess(), &key, &iv, &[at + 10], true);
     }
     // (b) official vectors and structured keys: two-word requests and word-by-word
     for (k, iv) in &structured {
